@@ -44,6 +44,7 @@ class SpecRun:
         self.extraction = {}
 
     def extract(self):
+        self.prog.options = dict(self.spec.options)
         for nm, content in self.spec.strings:
             self.prog.intern_string(content)
         for u in self.spec.units:
